@@ -77,6 +77,7 @@ func c03Cases(c c03Case) (root, md ops.Case) {
 	}
 	if c.Op == "walkiter" {
 		root.Op = "walkiter"
+		root.RangeTwice = len(c.Prog)%2 == 1 // the iterator is a value over the tree: ranging over it again walks the tree again
 	}
 	if c.WFail > 0 && (c.Op == "text" || c.Op == "json" || c.Op == "yaml" || c.Op == "toml") {
 		root.Faults.WriterFailAt = c.WFail - 1
@@ -153,6 +154,9 @@ func c03Check(c c03Case) string {
 	if c.Op == "walk" || c.Op == "walkiter" {
 		if len(rr.Visits) != tree.Count() {
 			return fmt.Sprintf("%swalk visited %d nodes but the tree has %d", head, len(rr.Visits), tree.Count())
+		}
+		if c.Op == "walkiter" && len(c.Prog)%2 == 1 && rr.SecondVisits != tree.Count() {
+			return fmt.Sprintf("%sranging over the same iterator value a second time visited %d nodes, the tree has %d", head, rr.SecondVisits, tree.Count())
 		}
 	}
 	if c.Op == "mkdir" || c.Op == "verify" {
